@@ -69,7 +69,11 @@ func vSymTree3(name string, depth int) vTree {
 			return vIsInt(g, 0)
 		}}
 	case 5:
-		return vTree{respValue{data: respDouble(1.5)}, func(g respValue) bool { return vIsText(g, "1.5") }}
+		// the RESP2 form of a double is the text the RESP3 serializer writes for it
+		// (fixed notation also for tiny and huge magnitudes)
+		d := respDouble([]float64{1.5, 0.00001, 1e21, -2.5e-7, 3, 1e6, 123456789.125}[vChoice(name+".d", 7)])
+		txt := d.String()
+		return vTree{respValue{data: d}, func(g respValue) bool { return vIsText(g, txt) }}
 	case 6:
 		t := vString(name+".t", 2)
 		return vTree{respValue{data: respVerbatimString{format: "txt", text: t}}, func(g respValue) bool { return vIsText(g, t) }}
@@ -314,7 +318,8 @@ func VerifH_c15_commands() {
 		{"GET", "k"}, {"GET", "nokey"}, {"MGET", "k", "nokey"}, {"TYPE", "k"}, {"EXISTS", "k"},
 		{"HRANDFIELD", "h1", "1", "WITHVALUES"}, {"HRANDFIELD", "h1", "-2", "WITHVALUES"},
 		{"LCS", "k", "k", "IDX"}, {"HELLO"}, {"BITFIELD", "k", "GET", "u4", "0"},
-		{"CLIENT", "INFO"}, {"CLIENT", "LIST"}, {"INCRBYFLOAT", "f", "1.5"}, {"HINCRBYFLOAT", "hf", "f", "1.5"},
+		{"CLIENT", "INFO"}, {"CLIENT", "LIST"}, {"INCRBYFLOAT", "f", "1.5"}, {"HINCRBYFLOAT", "hf", "f", "1.5"}, {"HINCRBYFLOAT", "hf", "t", "0.00001"}, {"HINCRBYFLOAT", "hf", "g", "1e21"},
+		{"INCRBYFLOAT", "f2", "0.00001"}, {"INCRBYFLOAT", "f3", "1e21"},
 		{"SCAN", "0"}, {"HSCAN", "h", "0"}, {"COMMAND", "COUNT"}, {"GET", "h"}, {"NOSUCHCOMMAND"},
 		// deeply nested replies (arrays of arrays holding maps / sets)
 		{"COMMAND", "INFO", "get"}, {"COMMAND", "INFO", "lmpop", "nosuch"}, {"COMMAND", "DOCS", "get"}, {"COMMAND", "GETKEYS", "SET", "a", "b"},
